@@ -22,7 +22,7 @@ class Ref(object):
 
 def make_reference(rng, work, n_levels=None, n_leaves=None, n_genes=None,
                    cells_per_leaf=(4, 10), encoding='csr', name='ref',
-                   rich=False):
+                   rich=False, forest=None):
     """
     labelled raw-count reference with separable clusters; rich=True: the
     root and at least one node of every other non-leaf level have two or
@@ -31,7 +31,8 @@ def make_reference(rng, work, n_levels=None, n_leaves=None, n_genes=None,
     work = pathlib.Path(work)
     d = int(n_levels if n_levels is not None else rng.integers(2, 4))
     k = int(n_leaves if n_leaves is not None else rng.integers(5, 8))
-    forest = gen.random_forest(rng, d, k)
+    if forest is None:
+        forest = gen.random_forest(rng, d, k)
     if rich and k >= d:
         def is_rich(f):
             level = [f]           # child lists of the nodes of one level
